@@ -102,6 +102,156 @@ ARGKEEP = [
 ]
 
 
+
+# ---- whole queries over the modelled builtin bodies (`q pipe`: AwModel/Query/Pipeline.lean) -----------------
+MS = 1000
+SEC = 1_000_000
+T0_US = 1577836800 * SEC  # Q.T0
+
+
+def _jv(v):
+    """a value inside event data / a query result as the model's `Val` prints it"""
+    from aw_core.models import Event
+
+    if isinstance(v, str):
+        return ["s", v]
+    if isinstance(v, list) and all(isinstance(x, str) for x in v):
+        return ["l", [["s", x] for x in v]]
+    if isinstance(v, list) and v and all(isinstance(x, Event) for x in v):
+        return ["l", [_pipe_canon(x) for x in v]]
+    from ..common import canon_data
+
+    return ["c", "j", canon_data(v), []]
+
+
+def _pipe_canon(v):
+    from datetime import timedelta
+
+    from aw_core.models import Event
+
+    from ..common import dt_to_us, td_to_us
+
+    if isinstance(v, Event):
+        return ["c", "e", "", [["none"] if v.id is None else ["i", v.id], ["i", dt_to_us(v.timestamp)], ["i", td_to_us(v.duration)],
+                               ["d", [[k, _jv(x)] for k, x in v.data.items()]]]]
+    if isinstance(v, timedelta):
+        return ["c", "t", "", [["i", td_to_us(v)]]]
+    if isinstance(v, bool):
+        return ["b", v]
+    if isinstance(v, int):
+        return ["i", v]
+    if isinstance(v, str):
+        return ["s", v]
+    if isinstance(v, (list, tuple)):
+        return ["l", [_pipe_canon(x) for x in v]]
+    if isinstance(v, dict):
+        return ["d", [[k, _pipe_canon(x)] for k, x in v.items()]]
+    if v is None:
+        return ["none"]
+    return ["o", type(v).__name__, str(v)]
+
+
+def _pipe_store(store):
+    """a real in-memory datastore holding `store` = [[bucket, hostname, [[ts, dur, data]…]]…]; returns it and the ids"""
+    from aw_core.models import Event
+    from aw_datastore import Datastore
+    from aw_datastore.storages import MemoryStorage
+
+    from ..common import us_to_dt, us_to_td
+
+    ds = Datastore(MemoryStorage, testing=True)
+    ids = []
+    for b, host, evs in store:
+        ds.create_bucket(b, "t", "c", host)
+        row = []
+        for ts, dur, data in evs:
+            e = ds[b].insert(Event(timestamp=us_to_dt(ts), duration=us_to_td(dur), data=json.loads(json.dumps(data))))
+            row.append(e.id)
+        ids.append(row)
+    return ds, ids
+
+
+def _pipe_line(case, text, ids):
+    from ..common import hx, p_list, p_opt
+
+    def pj(v):
+        if isinstance(v, str):
+            return "s " + hx(v)
+        if isinstance(v, list) and all(isinstance(x, str) for x in v):
+            return "l " + p_list(v, hx)
+        from ..common import canon_data
+
+        return "o " + hx(canon_data(v))
+
+    def pe(e, i):
+        ts, dur, data = e
+        return f"{p_opt(i)} {ts} {dur} " + p_list(list(data.items()), lambda kv: hx(kv[0]) + " " + pj(kv[1]))
+
+    bs = p_list(list(zip(case["store"], ids)),
+                lambda si: f"{hx(si[0][0])} {hx(si[0][1])} " + p_list(list(zip(si[0][2], si[1])), lambda ei: pe(ei[0], ei[1])))
+    return f"q pipe {T0_US} {T0_US + 86400 * SEC} {bs} {Q.p_env()} {hx(text)}"
+
+
+def _pipe_events(rng, n, keys, step=None):
+    """n events inside the query window: ms-aligned instants on a coarse grid (ties, overlaps, gaps around the 5 s
+    default pulsetime), data dicts with keys in one fixed order"""
+    out = []
+    t = T0_US + rng.randrange(0, 3600) * SEC
+    for _ in range(n):
+        t += rng.choice([0, 1, 2, 4, 5, 6, 30, 300]) * SEC + rng.choice([0, 0, 1, 250, 999]) * MS
+        dur = rng.choice([0, 1, 2, 5, 10, 60, 600]) * SEC + rng.choice([0, 0, 0, 500 * MS, 1500])
+        data = {}
+        for k in keys:
+            r = rng.random()
+            if r < 0.15:
+                continue
+            data[k] = rng.choice(["a0", "a1", "a2", ["x", "y"], ["x"], 1, 2, "1", "", {"n": 1}, None]) if r < 0.5 else rng.choice(["a0", "a1"])
+        out.append([t, dur, data])
+    if rng.random() < 0.3:
+        rng.shuffle(out)  # storage order need not be time order
+    return out
+
+
+def _gen_pipe(rng):
+    keys = ["app", "title"]
+    store = [["win", "host1", _pipe_events(rng, rng.randrange(0, 9), keys)],
+             ["afk", rng.choice(["host1", "host2"]), _pipe_events(rng, rng.randrange(0, 6), ["status"])]]
+    if rng.random() < 0.3:
+        store.append(["win2", "host2", _pipe_events(rng, rng.randrange(0, 5), keys)])
+    srcs = [_q("win"), _q("afk"), _c("query_bucket", _c("find_bucket", _s("wi"))), ["l", []]] + ([_q("win2")] if len(store) > 2 else [])
+    vals = [_s("a0"), _s("a1"), _s(""), _s("1"), ["i", 1], ["i", 2], ["l", [_s("x"), _s("y")]], ["l", [_s("x")]]]
+
+    def ev(d):
+        if d == 0 or rng.random() < 0.25:
+            return rng.choice(srcs)
+        f = rng.choice(["concat", "limit_events", "sort_by_timestamp", "sort_by_duration", "filter_keyvals", "exclude_keyvals",
+                        "merge_events_by_keys", "period_union", "filter_period_intersect", "flood", "union_no_overlap"])
+        a = ev(d - 1)
+        if f in ("concat", "period_union", "filter_period_intersect", "union_no_overlap"):
+            return _c(f, a, ev(d - 1))
+        if f == "limit_events":
+            return _c(f, a, ["i", rng.choice([0, 1, 2, 3, 100])])
+        if f in ("filter_keyvals", "exclude_keyvals"):
+            return _c(f, a, _s(rng.choice(keys + ["status", "nokey"])), ["l", rng.sample(vals, rng.randrange(0, 4))])
+        if f == "merge_events_by_keys":
+            return _c(f, a, ["l", [_s(k) for k in rng.sample(keys + ["status", "nokey"], rng.randrange(0, 3))]])
+        return _c(f, a)
+
+    top = rng.random()
+    e = ev(rng.randrange(1, 4))
+    if top < 0.15:
+        e = _c("sum_durations", e)
+    elif top < 0.25:
+        e = _c("chunk_events_by_key", e, _s(rng.choice(keys)))
+    elif top < 0.35:
+        e = ["d", [["n", _c("nop")], ["count", _c("query_bucket_eventcount", _s(rng.choice(["win", "afk"])))], ["events", e]]]
+    if rng.random() < 0.3:
+        prog = [["events", ev(1)], ["events", _c("sort_by_timestamp", ["v", "events"])], ["RETURN", ["l", [["v", "events"], e]]]]
+    else:
+        prog = [["RETURN", e]]
+    return {"k": "pipe", "prog": prog, "store": store}
+
+
 class C11(Prop):
     ID = "C11"
     MODULE = "AwProofs.Props.C11"
@@ -112,9 +262,25 @@ class C11(Prop):
         "AwProofs.C11.layout_independent",
         "AwProofs.C11.call_denotes",
         "AwProofs.C11.args_in_order",
+        "AwProofs.C11.builtin_nop",
+        "AwProofs.C11.builtin_concat",
+        "AwProofs.C11.builtin_sum_durations",
+        "AwProofs.C11.builtin_limit_events",
+        "AwProofs.C11.builtin_sort_by_timestamp",
+        "AwProofs.C11.builtin_sort_by_duration",
+        "AwProofs.C11.builtin_filter_keyvals",
+        "AwProofs.C11.builtin_exclude_keyvals",
+        "AwProofs.C11.builtin_merge_events_by_keys",
+        "AwProofs.C11.builtin_chunk_events_by_key",
+        "AwProofs.C11.builtin_filter_period_intersect",
+        "AwProofs.C11.builtin_period_union",
+        "AwProofs.C11.builtin_flood",
+        "AwProofs.C11.builtin_union_no_overlap",
+        "AwProofs.C11.builtin_rejects_non_list",
     ]
     TRUSTED = [
         "harness/registry_dump.py generates AwModel/Query/RegistryGen.lean from aw_query.functions on every run",
+        "stream `pipeline`: whole queries with the REAL builtin bodies on a real in-memory datastore vs the model's `q pipe` (generated registry + Pipeline.fullApply: the three store readers over the memory-store model and 14 q2_* wrappers over the transform models of C09/C10/C15/C16); categorize, tag, split_url_events, simplify_window_titles, filter_keyvals_regex have no body in that model",
         "builtin bodies are recording stubs in the real registry (the real q2_function / q2_typecheck wrappers stay), so a call's value is the term name(args...) on both sides; the Python reference parser/evaluator and renderer (harness/qlang.py) are independent of the model and compared with the model's render/denote on every case",
     ]
     ASSUMPTIONS = [
@@ -127,10 +293,10 @@ class C11(Prop):
         "query_means_text (for every well-formed program and every layout - arbitrary ASCII whitespace around , : = ; "
         "and either quote style with escaped quotes - running the rendered text gives exactly what the program denotes, "
         "for arbitrary builtin bodies over the registry generated from the source), expr_parse_render, stmt_parse_render, "
-        "layout_independent, call_denotes, args_in_order; all three planned stages reached, no _partial theorem; the "
+        "layout_independent, call_denotes, args_in_order; builtin_<name> (14 registered builtins, called through the generated registry's call protocol, equal their transform models for every argument list; builtin_rejects_non_list); all three planned stages reached, no _partial theorem; the "
         "model, its render and its denote are compared with the real code and an independent Python reference on every run"
     )
-    LEVEL_NOTE = "trusts: Lean kernel + propext/Quot.sound; model-code tie is differential (programs x layouts); ASCII, strings without ; and backslash, builtin bodies symbolic"
+    LEVEL_NOTE = "trusts: Lean kernel + propext/Quot.sound; model-code tie is differential (programs x layouts); ASCII, strings without ; and backslash; builtin bodies arbitrary in the parser theorems, 14 of them identified with the transform models (builtin_*), the 5 regex/URL ones parameters"
     TECHNIQUE = "Lean 4 proof over executable model + differential correspondence check + independent reference parser/evaluator"
     RULE = (
         "hand-written programs; programs generated from the grammar (nesting <= 4, every builtin of the generated "
@@ -177,6 +343,12 @@ class C11(Prop):
                 src = _q("win")
                 p = [["a", src], ["b", ["c", name, args]], ["RETURN", ["l", [["v", "a"], ["v", "b"]]]]]
                 out.append(("real-argkeep", {"k": "real", "prog": p, "lays": self.lays(rng, 3), "value_semantics": True}))
+        # whole queries over random bucket contents: every modelled builtin body composed (model: `q pipe`)
+        rng = ctx.rng("c11pipe")
+        for _ in range(ctx.pick(700, 12000)):
+            c = _gen_pipe(rng)
+            c["lays"] = self.lays(rng, 2)
+            out.append(("pipeline", c))
         # every builtin, well-typed, with bracketed arguments everywhere
         rng = ctx.rng("c11builtins")
         for name in sorted(reg):
@@ -258,6 +430,8 @@ class C11(Prop):
 
     def impl(self, case):
         texts = self.texts(case)
+        if case["k"] == "pipe":
+            return {"outs": [self.run_pipe(case, t)[0] for t in texts]}
         if case["k"] == "real":
             return {"texts": texts, "outs": [Q.run_text_real(t) for t in texts]}
         for t in case.get("prelude") or []:
@@ -268,7 +442,20 @@ class C11(Prop):
             "denote": Q.ref_eval(case["prog"], Q.registry(), case["ret"]),
         }
 
+    def run_pipe(self, case, text):
+        import aw_query.query2 as q2
+
+        Q.install_stubs()
+        Q.Mode.real = True
+        try:
+            ds, ids = _pipe_store(case["store"])
+            return Q.guarded(lambda: _pipe_canon(q2.query("n", text, Q.T0, Q.T1, ds))), ids
+        finally:
+            Q.Mode.real = False
+
     def same(self, case, impl_out, model_out):
+        if case["k"] == "pipe":
+            return impl_out["outs"] == model_out["outs"]
         if case["k"] == "real":  # real builtin bodies: no model, the oracle evaluates directly
             return True
         if "\\" in json.dumps(case["prog"]):
@@ -279,6 +466,9 @@ class C11(Prop):
         return impl_out == model_out
 
     def model_lines(self, case):
+        if case["k"] == "pipe":
+            ids = [list(range(len(evs))) for _, _, evs in case["store"]]  # the memory store numbers a fresh bucket 0, 1, 2, …
+            return [_pipe_line(case, t, ids) for t in self.texts(case)]
         if case["k"] == "real":
             return []
         ls = []
@@ -290,6 +480,8 @@ class C11(Prop):
         return ls
 
     def model_out(self, case, answers):
+        if case["k"] == "pipe":
+            return {"outs": [Q.r_result(a, Q.r_val) for a in answers]}
         if case["k"] == "real":
             return None
         n = len(case["lays"])
@@ -300,6 +492,14 @@ class C11(Prop):
     # ---- the property --------------------------------------------------------------------------
     def oracle(self, case, out):
         texts = self.texts(case)
+        if case["k"] == "pipe":
+            # judged by the correspondence with the model (whose transforms carry the theorems of C09/C10/C15/C16 and whose reads
+            # those of C03/C12); here: both layouts mean the same, and the store numbers events as the model line assumes
+            if out is None:
+                return None
+            if any(o != out["outs"][0] for o in out["outs"]):
+                return "spacing around separators changed the result"
+            return None
         if case["k"] == "real":
             if out is None:
                 return None
@@ -336,6 +536,9 @@ class C11(Prop):
 
     def features(self, case, out):
         fs = []
+        if case["k"] == "pipe":
+            o = out["outs"][0]
+            return ["pipe:" + (("err:" + o[1]) if o[0] == "err" else "value")]
         if case["k"] == "real":
             return ["real:" + case["prog"][-1][1][1] if case["prog"][-1][1][0] == "c" else "real:other"]
         o = out["outs"][0]
